@@ -49,6 +49,12 @@ class BodyMacroGen:
         self.items = []
         self.feats = set()
         self.used = set()
+        # locals of THIS macro that are bound only through the arguments of nested invocations (no direct item of the
+        # body has them in a binding position): the renaming pass finds them only because it runs on the fully
+        # expanded items.  keep_nested_only: never put such a local into a direct binding position afterwards.
+        self.nested_only = []
+        self.keep_nested_only = rng.random() < 0.8
+        self.nested_first = rng.random() < 0.45
 
     # ---- pieces
     def pick(self, avail):
@@ -73,7 +79,7 @@ class BodyMacroGen:
         name, arity, _ = rng.choice(cands)
         args, newly = [tv(v) for v in force], list(force)
         while len(args) < arity:
-            avail = self.bound + newly + (private or [])
+            avail = [v for v in self.bound + newly + (private or []) if not (self.keep_nested_only and v in self.nested_only)]
             opts = [("const", 1.0)]
             if self.unbound_io and not force and private is None:
                 opts.append(("io", 3.0))
@@ -201,19 +207,33 @@ class BodyMacroGen:
         rng = self.rng
         cands = [j for j, s in self.lower.items() if s["kind"] == "body"]
         rng.shuffle(cands)
+        if self.unused_locals or self.nested_only:
+            # prefer an inner macro that can bind / re-use a local of this macro through its arguments
+            cands.sort(key=lambda j: 0 if any(m in ("io", "new") for m in self.lower[j]["sig"]) else 1)
         for j in cands:
             sig = self.lower[j]["sig"]
             acts, ok, binds = [], True, []
-            avail_new = list(self.pending_new)
+            avail_new = list(self.pending_new) + list(self.unused_locals)
             for m in sig:
                 if m == "io":
                     pool = self.bound + [v for v in self.unbound_io if v not in binds]
-                    if not pool:
+                    fresh = [v for v in self.unused_locals if v not in binds]
+                    again = [v for v in self.nested_only if v in self.bound]
+                    if fresh and (not pool or rng.random() < 0.5):
+                        # a local of this macro that nothing has bound yet: the nested invocation binds it
+                        v = fresh[0]
+                        binds.append(v)
+                        if v in avail_new:
+                            avail_new.remove(v)
+                    elif again and rng.random() < 0.5:
+                        v = rng.choice(again)                 # a local bound by an earlier nested invocation (a join through it)
+                    elif pool:
+                        v = rng.choice(pool)
+                        if v in self.unbound_io:
+                            binds.append(v)
+                    else:
                         ok = False
                         break
-                    v = rng.choice(pool)
-                    if v in self.unbound_io:
-                        binds.append(v)
                     self.used.add(str(v))
                     acts.append(tv(v))
                 elif m == "in":
@@ -222,6 +242,7 @@ class BodyMacroGen:
                         break
                     acts.append(tv(self.pick(self.bound)))
                 elif m == "new":
+                    avail_new = [v for v in avail_new if v not in binds]
                     if not avail_new:
                         ok = False
                         break
@@ -237,6 +258,9 @@ class BodyMacroGen:
                     self.unbound_io.remove(v)
                 if v in self.pending_new:
                     self.pending_new.remove(v)
+                if v in self.unused_locals:
+                    self.unused_locals.remove(v)
+                    self.nested_only.append(v)
                 self.bound.append(v)
             self.feats.add("nested")
             return ["inv", j, acts]
@@ -244,7 +268,9 @@ class BodyMacroGen:
 
     def build(self):
         rng = self.rng
-        self.items.append(self.clause(force=()))
+        has_lower = any(s_["kind"] == "body" for s_ in self.lower.values())
+        first = self.inv() if (has_lower and self.nested_first) else None
+        self.items.append(first if first is not None else self.clause(force=()))
         if not self.bound:
             # the first clause bound nothing usable (constants only): bind a local
             v = self.unused_locals.pop(0) if self.unused_locals else None
@@ -252,11 +278,11 @@ class BodyMacroGen:
                 v = lid(rng.choice(POOL), self.k)
             self.items.append(["clause", "u0", [tv(v)], []])
             self.bound.append(v)
-        has_lower = any(s_["kind"] == "body" for s_ in self.lower.values())
-        for _ in range(rng.randint(0, 3)):
+        p_inv = 0.6 if (self.nested_first or self.nested_only) else 0.35
+        for _ in range(rng.randint(1 if self.nested_only else 0, 3)):
             u = rng.random()
             it = None
-            if has_lower and u < 0.35:
+            if has_lower and u < p_inv:
                 it = self.inv()
             elif u < 0.55:
                 it = self.clause()
@@ -282,8 +308,11 @@ class BodyMacroGen:
             elif m == "e":
                 self.items.append(["clause", rng.choice(["u0", "u1", "d1"]), [tv(par(i))], []])
                 self.feats.add("expr_param")
+        nonly = nested_only_locals(self.items)
+        if nonly:
+            self.feats.add("macro_local_bound_only_through_nested_invocation")
         return dict(name=self.k, params=[[i, m != "e"] for i, m in enumerate(self.sig)], body=self.items), \
-            dict(kind="body", sig=self.sig, locals=sorted({v[1] for v in _idents_items(self.items)}), feats=self.feats)
+            dict(kind="body", sig=self.sig, locals=sorted({v[1] for v in _idents_items(self.items)}), nested_only=nonly, feats=self.feats)
 
 
 def head_macro(rng, k, lower):
@@ -359,6 +388,33 @@ def _idents_items(items):
     return out
 
 
+def _bound_direct(items):
+    """identifiers in a binding position of the items themselves, at any disjunction depth (python counterpart of
+    MacroModel.bv_items / body_item_get_bound_vars: nothing for negations and for invocations)"""
+    out = []
+    for it in items:
+        k = it[0]
+        if k == "clause":
+            out += [x for t in it[2] if t[0] == "v" for x in _idents_var(t[1])]
+            out += [x for c in it[3] if c[0] in ("let", "iflet") for x in _idents_var(c[1])]
+        elif k == "cond" and it[1][0] in ("let", "iflet"):
+            out += _idents_var(it[1][1])
+        elif k == "gen":
+            out += _idents_var(it[1])
+        elif k == "disj":
+            for alt in it[1]:
+                out += _bound_direct(alt)
+    return out
+
+
+def nested_only_locals(items):
+    """spellings of the identifiers of a macro body that stand as an argument of a nested invocation and that no direct
+    item of the body binds"""
+    direct = {v[1] for v in _bound_direct(items)}
+    passed = {t[1][1] for it in _walk(items) if it[0] == "inv" for t in it[2] if t[0] == "v" and t[1][0] == "id"}
+    return sorted(passed - direct)
+
+
 class RuleGen:
     def __init__(self, rng, sigs):
         self.rng, self.sigs = rng, sigs
@@ -371,7 +427,7 @@ class RuleGen:
         """names of the locals of the macros invoked so far / available: the adversarial spelling"""
         names = []
         for j, s in self.sigs.items():
-            names += s["locals"]
+            names += s["locals"] + 3 * s.get("nested_only", [])
         return names or POOL
 
     def new_name(self, unused=False):
@@ -412,6 +468,8 @@ class RuleGen:
         rng.shuffle(cands)
         # prefer a macro that was already invoked in this rule (same macro twice)
         cands.sort(key=lambda j: 0 if (j in self.invoked and rng.random() < 0.6) else 1)
+        # ... and a macro with a local that is bound only through nested invocations (directly or in a macro it invokes)
+        cands.sort(key=lambda j: 0 if (self.sigs[j].get("nested_only") and rng.random() < 0.5) else 1)
         for j in cands:
             sig = self.sigs[j]["sig"]
             if in_disj and "new" in sig:
@@ -554,6 +612,40 @@ def spelled_like_local(p):
     return n
 
 
+def nested_only_feats(p):
+    """features of a program around macro locals that are bound only through nested invocations: such a macro is
+    instantiated at least twice in the expansion of one rule / a call-site identifier of the rule is spelled like the local"""
+    defs = {}
+    for d in p["macros"]:
+        defs[d["name"]] = d
+    nonly = {m: nested_only_locals(d["body"]) for m, d in defs.items() if m not in p.get("head_macros", [])}
+    nonly = {m: v for m, v in nonly.items() if v}
+    feats = set()
+
+    def count(items, depth=0):
+        c = {}
+        if depth > 60:
+            return c
+        for it in _walk(items):
+            if it[0] == "inv" and it[1] in defs:
+                c[it[1]] = c.get(it[1], 0) + 1
+                for m, n in count(defs[it[1]]["body"], depth + 1).items():
+                    c[m] = c.get(m, 0) + n
+        return c
+    for r in p["rules"]:
+        c = count(r["body"])
+        hit = [m for m in c if m in nonly]
+        if not hit:
+            continue
+        feats.add("macro_local_bound_only_through_nested_invocation")
+        if any(c[m] >= 2 for m in hit):
+            feats.add("nested_only_local:macro_instantiated_twice_in_rule")
+        names = {v[1] for v in _idents_items(r["body"])} | {v[1] for h in r["heads"] for t in h[2] for v in _idents_term(t)}
+        if any(set(nonly[m]) & names for m in hit):
+            feats.add("nested_only_local:spelled_like_call_site_variable")
+    return feats
+
+
 def _walk(items):
     for it in items:
         yield it
@@ -605,6 +697,8 @@ def gen_program_once(rng):
     p = dict(rels=copy.deepcopy(RELS), macros=macros, rules=rules, head_macros=[k for k, s in sigs.items() if s["kind"] == "head"])
     if spelled_like_local(p):
         feats.add("call_site_variable_spelled_like_macro_local")
+    feats.discard("macro_local_bound_only_through_nested_invocation")
+    feats |= nested_only_feats(p)
     return p, sorted(feats)
 
 
@@ -776,3 +870,104 @@ def gen_pattern(rng, i):
     # designed input: every key 1, 3, 5 has a witness of its own for the local; the alternative holds for 5 only
     designed = {A: [(1, 2), (3, 4), (5, 0)], B: [(0,), (2,), (4,)], K: [(1,), (3,), (5,)], Ao: [(5, 5)], "d0": [], "d1": [], "d2": []}
     return kind, p, designed
+
+
+# ------------------------------------------------------------------ macro locals bound ONLY through nested invocations (every run)
+# The renaming of the variables a macro body introduces finds them among the bound variables of the items it is given;
+# an invocation binds nothing while it is unexpanded, so a local that occurs only in the arguments of nested invocations
+# (`mid` in `macro two($x, $z) { hop!($x, mid), hop!(mid, $z) }`) is renamed only because the nested invocations are
+# expanded FIRST.  Each pattern has such a local, a rule in which identifying the locals of two invocations / the local
+# and a call-site variable of the same spelling changes the result, and a designed input (a chain) on which it does.
+# `leak` = the (macro, spelling) pairs of those locals: the tie also runs the hand expansion in which they keep their
+# spelling and checks that the designed input tells it apart from the hygienic one (the input is sensitive).
+
+NPATTERNS = ["two_hops", "new_parameter_of_inner_macro", "two_levels", "nested_in_disjunction", "mixed_with_direct_local",
+             "local_as_expr_actual", "inner_local_same_spelling", "used_in_condition_and_negation", "bound_by_second_invocation",
+             "three_hops_two_locals"]
+NSHAPES = ["twice", "call_site_variable_before", "call_site_variable_after", "actual_spelled_like_local", "twice_and_call_site_variable",
+           "twice_inside_disjunction"]
+
+
+def gen_nested_pattern(rng, i):
+    kind = NPATTERNS[i % len(NPATTERNS)]
+    shape = NSHAPES[(i // len(NPATTERNS) + i) % len(NSHAPES)]
+    A, Ao = rng.choice([("e0", "e1"), ("e1", "e0")])          # A: the chain; Ao: shortcuts (alternative of a disjunction)
+    B, K = rng.choice([("u0", "u1"), ("u1", "u0")])           # B: a filter on values; K: binds call-site variables
+    v = rng.choice(POOL)                                      # the spelling of the local
+    others = [n for n in POOL if n != v]
+    a, b, c, w = rng.sample(others, 4)
+    P0, P1 = par(0), par(1)
+    II = [[0, True], [1, True]]
+    macros = [dict(name=0, params=II, body=[["clause", A, [tv(P0), tv(P1)], []]])]        # hop: one step of the chain
+
+    def add(body, params=II):
+        """next macro of the table (a macro invokes only macros defined before it); returns its index"""
+        macros.append(dict(name=len(macros), params=params, body=body))
+        return len(macros) - 1
+    if kind == "two_hops":
+        top = add([["inv", 0, [tv(P0), tv(lid(v, 1))]], ["inv", 0, [tv(lid(v, 1)), tv(P1)]]])
+        leak = [[top, v]]
+    elif kind == "new_parameter_of_inner_macro":
+        # the inner macro binds its second parameter with a let: the outer local is a `let` pattern after expansion
+        mk = add([["clause", B, [tv(P0)], []], ["cond", ["let", P1, "incs", [P0]]]])
+        top = add([["inv", mk, [tv(P0), tv(lid(v, 2))]], ["inv", 0, [tv(lid(v, 2)), tv(P1)]]])
+        leak = [[top, v]]
+    elif kind == "two_levels":
+        v2 = v if rng.random() < 0.5 else rng.choice(others)
+        two = add([["inv", 0, [tv(P0), tv(lid(v, 1))]], ["inv", 0, [tv(lid(v, 1)), tv(P1)]]])
+        top = add([["inv", two, [tv(P0), tv(lid(v2, 2))]], ["inv", 0, [tv(lid(v2, 2)), tv(P1)]]])
+        leak = [[two, v], [top, v2]]
+    elif kind == "nested_in_disjunction":
+        alt = add([["clause", Ao, [tv(P0), tv(P1)], []]])
+        top = add([["disj", [[["inv", 0, [tv(P0), tv(lid(v, 2))]]], [["inv", alt, [tv(P0), tv(lid(v, 2))]]]]], ["inv", 0, [tv(lid(v, 2)), tv(P1)]]])
+        leak = [[top, v]]
+    elif kind == "mixed_with_direct_local":
+        L, W = lid(v, 1), lid(w, 1)
+        top = add([["inv", 0, [tv(P0), tv(L)]], ["cond", ["if", "ne", [L, P0]]], ["clause", A, [tv(W), tv(P1)], []], ["inv", 0, [tv(L), tv(W)]]])
+        leak = [[top, v]]
+    elif kind == "local_as_expr_actual":
+        macros[0] = dict(name=0, params=[[0, True], [1, False]], body=[["clause", A, [tv(P0), tv(P1)], []]])
+        top = add([["inv", 0, [tv(P0), tv(lid(v, 1))]], ["inv", 0, [tv(lid(v, 1)), tv(P1)]]])
+        leak = [[top, v]]
+    elif kind == "inner_local_same_spelling":
+        # the inner macro has a local of its own with the same spelling (bound directly: renamed at the inner level)
+        macros[0] = dict(name=0, params=II, body=[["clause", A, [tv(P0), tv(lid(v, 0))], []], ["clause", A, [tv(P0), tv(P1)], [["if", "le", [P1, lid(v, 0)]]]]])
+        top = add([["inv", 0, [tv(P0), tv(lid(v, 1))]], ["inv", 0, [tv(lid(v, 1)), tv(P1)]]])
+        leak = [[top, v]]
+    elif kind == "used_in_condition_and_negation":
+        L = lid(v, 1)
+        top = add([["inv", 0, [tv(P0), tv(L)]], ["neg", B, [tv(L)]], ["cond", ["if", "lt", [P0, L]]], ["inv", 0, [tv(L), tv(P1)]]])
+        leak = [[top, v]]
+    elif kind == "bound_by_second_invocation":
+        # the parameters are bound by direct items, the local only through the nested invocations
+        L = lid(v, 1)
+        top = add([["clause", K, [tv(P0)], []], ["inv", 0, [tv(P0), tv(L)]], ["inv", 0, [tv(L), tv(P1)]], ["clause", K, [tv(P1)], []]])
+        leak = [[top, v]]
+    else:
+        L, W = lid(v, 1), lid(w, 1)
+        top = add([["inv", 0, [tv(P0), tv(L)]], ["inv", 0, [tv(L), tv(W)]], ["inv", 0, [tv(W), tv(P1)]]])
+        leak = [[top, v], [top, w]]
+    inv = lambda x, z: ["inv", top, [tv(cid(x)), tv(cid(z))]]            # noqa: E731
+    if shape == "twice":
+        heads = [["h", "d0", [tv(cid(a)), tv(cid(c))]]]
+        rb = [inv(a, b), inv(b, c)]
+    elif shape == "call_site_variable_before":
+        heads = [["h", "d0", [tv(cid(a)), tv(cid(b))]], ["h", "d1", [tv(cid(v))]]]
+        rb = [["clause", B, [tv(cid(v))], []], inv(a, b)]
+    elif shape == "call_site_variable_after":
+        heads = [["h", "d0", [tv(cid(a)), tv(cid(b))]], ["h", "d1", [tv(cid(v))]]]
+        rb = [inv(a, b), ["clause", B, [tv(cid(v))], []]]
+    elif shape == "actual_spelled_like_local":
+        heads = [["h", "d0", [tv(cid(a)), tv(cid(v))]]]
+        rb = [inv(a, v)]
+    elif shape == "twice_and_call_site_variable":
+        heads = [["h", "d0", [tv(cid(a)), tv(cid(v))]]]
+        rb = [inv(a, b), inv(b, v)]
+    else:
+        heads = [["h", "d0", [tv(cid(a)), tv(cid(c))]]]
+        rb = [["clause", K, [tv(cid(a))], []], ["clause", K, [tv(cid(c))], []], ["disj", [[inv(a, b), inv(b, c)], [["clause", Ao, [tv(cid(a)), tv(cid(c))], []]]]]]
+    p = dict(rels=copy.deepcopy(RELS), macros=macros, rules=[dict(heads=heads, body=rb)], head_macros=[])
+    # designed input: the chain 0 -> 1 -> .. -> 9 (no cycle: a variable cannot be its own successor), two shortcuts,
+    # B holds for the even values, K for every value
+    designed = {A: [(k, k + 1) for k in range(9)], Ao: [(0, 3), (2, 5)], B: [(0,), (2,), (4,), (6,)], K: [(k,) for k in range(10)], "d0": [], "d1": [], "d2": []}
+    return kind, shape, p, designed, leak
